@@ -2314,6 +2314,10 @@ static void DecodeMOVE(Word Index) {
                         &AdrResult);
                 if ((AdrResult.Num == ModAdr) && (OpSize == eSymbolSize8Bit)) {
                     WrError(ErrNum_InvOpSize);
+                    CodeLen = 0;
+                } else if (AdrResult.Num == ModNone) {
+                    /* destination did not decode: do not emit the source part alone */
+                    CodeLen = 0;
                 } else if (AdrResult.Mode != 0) {
                     Boolean CombinationOK;
 
